@@ -150,3 +150,10 @@ func sortedKeys(m map[string]int) []string {
 	sort.Strings(ks)
 	return ks
 }
+
+func min(a, b int) int {
+	if a < b {
+		return a
+	}
+	return b
+}
